@@ -7,6 +7,7 @@ R-C14-4  blocking (client side) receivers accumulate until the announced size
 """
 
 import ast
+import copy
 import re
 import struct as _struct
 from collections import namedtuple
@@ -95,19 +96,323 @@ def _is_unpack(prog, f, node):
     return isinstance(node, ast.Call) and prog.resolve_in(node.func, f) == 'external:struct.unpack'
 
 
+def _rebinds(g, loc):
+    """g contains a plain (re)binding  self.x = ... / del self.x  of the attribute location"""
+    for n in g.own_nodes():
+        tg = n.targets if isinstance(n, (ast.Assign, ast.Delete)) else [n.target] if isinstance(n, (ast.AnnAssign, ast.AugAssign)) else []
+        if any(loc_of(t) == loc for t in _flat_targets(tg)):
+            return True
+        if (
+            isinstance(n, ast.Call)
+            and isinstance(n.func, ast.Name)
+            and n.func.id in ('setattr', 'delattr')
+            and len(n.args) >= 2
+            and isinstance(n.args[0], ast.Name)
+            and n.args[0].id == 'self'
+            and not (isinstance(n.args[1], ast.Constant) and 'self.' + str(n.args[1].value) != loc)
+        ):
+            return True
+    return False
+
+
+def _tuple_element(assign, target):
+    """a, b = X  ->  the value of b as the synthetic expression X[1] (or the element of a literal tuple); else None"""
+    if len(assign.targets) != 1 or not isinstance(assign.targets[0], (ast.Tuple, ast.List)):
+        return None
+    elts = assign.targets[0].elts
+    if any(not isinstance(e, ast.Name) for e in elts):
+        return None
+    i = [id(e) for e in elts].index(id(target))
+    v = assign.value
+    if isinstance(v, (ast.Tuple, ast.List)) and len(v.elts) == len(elts) and not any(isinstance(e, ast.Starred) for e in v.elts):
+        return v.elts[i]
+    return ast.copy_location(ast.Subscript(value=v, slice=ast.Constant(value=i), ctx=ast.Load()), v)
+
+
 def _local_values(f, name):
     out = []
     for n in f.own_nodes():
         if isinstance(n, ast.Assign):
             for t in _flat_targets(n.targets):
                 if isinstance(t, ast.Name) and t.id == name:
-                    out.append(n.value if len(n.targets) == 1 and t is n.targets[0] else None)
+                    if len(n.targets) == 1 and t is n.targets[0]:
+                        out.append(n.value)
+                    else:
+                        out.append(_tuple_element(n, t))
         elif isinstance(n, (ast.AugAssign, ast.AnnAssign)) and isinstance(n.target, ast.Name) and n.target.id == name:
             out.append(n.value if isinstance(n, ast.AnnAssign) else None)
         elif isinstance(n, (ast.For, ast.comprehension)):
             if any(isinstance(x, ast.Name) and x.id == name for x in ast.walk(n.target)):
                 out.append(None)
     return out
+
+
+def _single_return(g):
+    """the expression of a helper whose body is one return statement (docstring / pass ignored), else None"""
+    body = [
+        b
+        for b in g.node.body
+        if not isinstance(b, ast.Pass) and not (isinstance(b, ast.Expr) and isinstance(b.value, ast.Constant))
+    ]
+    if len(body) != 1 or not isinstance(body[0], ast.Return) or body[0].value is None:
+        return None
+    e = body[0].value
+    if any(isinstance(n, (ast.Lambda, ast.NamedExpr, ast.Yield, ast.YieldFrom, ast.Await, ast.ListComp, ast.SetComp, ast.DictComp, ast.GeneratorExp)) for n in ast.walk(e)):
+        return None
+    return e
+
+
+class _Subst(ast.NodeTransformer):
+    def __init__(self, mapping):
+        self.mapping = mapping
+
+    def visit_Name(self, node):
+        if isinstance(node.ctx, ast.Load) and node.id in self.mapping:
+            return copy.deepcopy(self.mapping[node.id])
+        return node
+
+
+def _simple_arg(a):
+    while isinstance(a, ast.Attribute):
+        a = a.value
+    return isinstance(a, (ast.Name, ast.Constant))
+
+
+def normalise_func(prog, f, rebound, private_to=None):
+    private_to = private_to or {}
+    """behaviour-preserving normal form of a method body, so that the rules see through two kinds of refactoring:
+
+    * reference aliases  ``state = self.x``  (x bound only by the constructor, the local bound once, at the top level
+      of the function, before every use): the local is replaced by ``self.x``;
+    * single-expression helpers  ``self.m(a, ..)`` / ``m(a, ..)`` of the same class / module called with plain
+      names, attributes or constants: the call is replaced by the helper's return expression (two levels).
+    """
+    node = copy.deepcopy(f.node)
+    changed = False
+    # ---- aliases
+    params = set(f.params())
+    names = {}
+    for n in ast.walk(node):
+        if isinstance(n, ast.Name):
+            names.setdefault(n.id, []).append(n)
+    for st in list(node.body):
+        if not (isinstance(st, ast.Assign) and len(st.targets) == 1 and isinstance(st.targets[0], ast.Name)):
+            continue
+        nm, v = st.targets[0].id, st.value
+        l = loc_of(v) if isinstance(v, ast.Attribute) else None
+        if l is None or not l.startswith('self.') or l in rebound or nm in params:
+            continue
+        occ = names.get(nm, [])
+        stores = [x for x in occ if not isinstance(x.ctx, ast.Load)]
+        if len(stores) != 1 or any(x.lineno <= st.lineno for x in occ if x is not st.targets[0]):
+            continue
+        if any(isinstance(x, (ast.FunctionDef, ast.AsyncFunctionDef, ast.Lambda, ast.ClassDef)) for b in node.body for x in ast.walk(b)):
+            continue
+        idx = node.body.index(st)
+        node.body[idx] = ast.copy_location(ast.Pass(), st)
+        node = _Subst({nm: v}).visit(node)
+        changed = True
+    # ---- working copy with write-back:  L = self.x [+ e] ; ... only L is used ... ; self.x = L
+    # (x private to this method: no other method except the constructor mentions it, so nobody can observe the delay)
+    for st in list(node.body):
+        if not (isinstance(st, ast.Assign) and len(st.targets) == 1 and isinstance(st.targets[0], ast.Name)):
+            continue
+        nm, v = st.targets[0].id, st.value
+        src_attr = v.left if isinstance(v, ast.BinOp) and isinstance(v.op, ast.Add) else v
+        l = loc_of(src_attr) if isinstance(src_attr, ast.Attribute) else None
+        if l is None or not l.startswith('self.') or nm in params or l not in private_to.get(f.qname, ()):
+            continue
+        i0 = node.body.index(st)
+        backs = [
+            b for b in node.body[i0 + 1 :]
+            if isinstance(b, ast.Assign) and len(b.targets) == 1 and loc_of(b.targets[0]) == l and isinstance(b.value, ast.Name) and b.value.id == nm
+        ]
+        if len(backs) != 1:
+            continue
+        i1 = node.body.index(backs[0])
+        between = [x for b in node.body[i0 + 1 : i1] for x in ast.walk(b)]
+        after = [x for b in node.body[i1 + 1 :] for x in ast.walk(b)]
+        if any(isinstance(x, ast.Attribute) and loc_of(x) == l for x in between + after):
+            continue
+        if any(isinstance(x, (ast.Return, ast.FunctionDef, ast.AsyncFunctionDef, ast.Lambda, ast.ClassDef, ast.Yield, ast.YieldFrom)) for x in between):
+            continue
+        if any(isinstance(x, ast.Name) and x.id == nm for b in node.body[:i0] for x in ast.walk(b)):
+            continue
+        if any(isinstance(x, ast.Name) and x.id == nm and not isinstance(x.ctx, ast.Load) for x in after):
+            continue
+
+        class Back(ast.NodeTransformer):
+            def visit_Name(self, n):
+                if n.id == nm:
+                    return ast.copy_location(ast.Attribute(value=ast.Name(id='self', ctx=ast.Load()), attr=l[5:], ctx=n.ctx), n)
+                return n
+
+        node.body[i1] = ast.copy_location(ast.Pass(), backs[0])
+        if src_attr is v:
+            node.body[i0] = ast.copy_location(ast.Pass(), st)
+        node = Back().visit(node)
+        changed = True
+    # ---- single-expression helpers
+    for _round in range(2):
+        class Inl(ast.NodeTransformer):
+            hit = False
+
+            def visit_Call(self, call):
+                self.generic_visit(call)
+                if call.keywords or any(isinstance(a, ast.Starred) or not _simple_arg(a) for a in call.args):
+                    return call
+                g = None
+                fn = call.func
+                if isinstance(fn, ast.Attribute) and isinstance(fn.value, ast.Name) and fn.value.id == 'self' and f.cls is not None:
+                    g = prog.method(f.cls.qname, fn.attr)
+                    skip = 1
+                elif isinstance(fn, ast.Name) and fn.id in f.module.funcs and fn.id not in params:
+                    g = f.module.funcs[fn.id]
+                    skip = 0
+                if g is None or g.qname == f.qname or g.node.decorator_list:
+                    return call
+                e = _single_return(g)
+                ps = g.params()[skip:] if g is not None else []
+                a = g.node.args
+                if e is None or len(ps) != len(call.args) or a.vararg or a.kwarg or a.kwonlyargs:
+                    return call
+                Inl.hit = True
+                new = _Subst(dict(zip(ps, call.args))).visit(copy.deepcopy(e))
+                for x in ast.walk(new):
+                    ast.copy_location(x, call)
+                return new
+
+        node = Inl().visit(node)
+        changed = changed or Inl.hit
+        if not Inl.hit:
+            break
+    # ---- helpers with a straight body called as a whole statement:  x = self.h(a) / self.h(a) / return self.h(a)
+    counter = [0]
+    for _round in range(2):
+        hit = [False]
+
+        def helper_of(call):
+            if not isinstance(call, ast.Call) or call.keywords or any(isinstance(a, ast.Starred) for a in call.args):
+                return None
+            fn = call.func
+            g = None
+            if isinstance(fn, ast.Attribute) and isinstance(fn.value, ast.Name) and fn.value.id == 'self' and f.cls is not None:
+                g = prog.method(f.cls.qname, fn.attr)
+                skip = 1
+            elif isinstance(fn, ast.Name) and fn.id in f.module.funcs and fn.id not in params:
+                g = f.module.funcs[fn.id]
+                skip = 0
+            if g is None or g.qname == f.qname or g.node.decorator_list:
+                return None
+            a = g.node.args
+            ps = g.params()[skip:]
+            if a.vararg or a.kwarg or a.kwonlyargs or len(ps) != len(call.args):
+                return None
+            body = [b for b in g.node.body if not (isinstance(b, ast.Expr) and isinstance(b.value, ast.Constant))]
+            ret = None
+            if body and isinstance(body[-1], ast.Return):
+                ret = body[-1].value
+                body = body[:-1]
+            inner = [x for b in body for x in ast.walk(b)]
+            if len([x for x in inner if isinstance(x, ast.stmt)]) > 40:
+                return None
+            if any(isinstance(x, (ast.Return, ast.Yield, ast.YieldFrom, ast.Await, ast.FunctionDef, ast.AsyncFunctionDef, ast.ClassDef, ast.Lambda, ast.Global, ast.Nonlocal, ast.Try)) for x in inner):
+                return None
+            return g, ps, body, ret
+
+        def expand(call, make_tail):
+            h = helper_of(call)
+            if h is None:
+                return None
+            g, ps, body, ret = h
+            counter[0] += 1
+            pre = f'_inl{counter[0]}_'
+            local = set(ps)
+            for b in body:
+                for x in ast.walk(b):
+                    if isinstance(x, ast.Name) and isinstance(x.ctx, (ast.Store, ast.Del)):
+                        local.add(x.id)
+                    elif isinstance(x, ast.ExceptHandler) and x.name:
+                        local.add(x.name)
+            local.discard('self')
+
+            class Ren(ast.NodeTransformer):
+                def visit_Name(self, n):
+                    if n.id in local:
+                        n.id = pre + n.id
+                    return n
+
+            out = [ast.Assign(targets=[ast.Name(id=pre + p_, ctx=ast.Store())], value=copy.deepcopy(a_)) for p_, a_ in zip(ps, call.args)]
+            out += [Ren().visit(copy.deepcopy(b)) for b in body]
+            tail = make_tail(Ren().visit(copy.deepcopy(ret)) if ret is not None else ast.Constant(value=None))
+            if tail is not None:
+                out.append(tail)
+            for o in out:
+                for x in ast.walk(o):
+                    if not hasattr(x, 'lineno') or o in out[: len(ps)] or o is tail:
+                        ast.copy_location(x, call)
+            hit[0] = True
+            return out
+
+        def rewrite(stmts):
+            res = []
+            for st in stmts:
+                for fld in ('body', 'orelse', 'finalbody'):
+                    if isinstance(getattr(st, fld, None), list) and not isinstance(st, (ast.FunctionDef, ast.AsyncFunctionDef, ast.ClassDef)):
+                        setattr(st, fld, rewrite(getattr(st, fld)) or [ast.copy_location(ast.Pass(), st)])
+                for h_ in getattr(st, 'handlers', []) or []:
+                    h_.body = rewrite(h_.body)
+                new = None
+                # a helper call nested in a simple statement is hoisted into a temporary first, when every other call
+                # of the statement encloses it (so that the order of evaluation is unchanged)
+                if isinstance(st, (ast.Expr, ast.Assign, ast.Return)) and st.value is not None and helper_of(st.value) is None:
+                    par = {id(c): p_ for p_ in ast.walk(st.value) for c in ast.iter_child_nodes(p_)}
+                    for c in ast.walk(st.value):
+                        if helper_of(c) is None:
+                            continue
+                        anc, n_ = [], c
+                        while id(n_) in par:
+                            n_ = par[id(n_)]
+                            anc.append(n_)
+                        if any(isinstance(a_, (ast.IfExp, ast.BoolOp, ast.Lambda, ast.ListComp, ast.SetComp, ast.DictComp, ast.GeneratorExp, ast.Compare)) for a_ in anc):
+                            continue
+                        others = [x for x in ast.walk(st.value) if isinstance(x, ast.Call) and x is not c]
+                        inside = {id(x) for x in ast.walk(c)}
+                        if any(id(x) not in inside and x not in anc for x in others) or any(id(x) in inside for x in others):
+                            continue
+                        counter[0] += 1
+                        tmp = f'_inl{counter[0]}_value'
+                        pre_stmts = expand(c, lambda r_, tmp=tmp: ast.Assign(targets=[ast.Name(id=tmp, ctx=ast.Store())], value=r_))
+                        if pre_stmts is None:
+                            continue
+                        ast.copy_location(pre_stmts[-1], c)
+                        p_ = par[id(c)]
+                        for fld, val in ast.iter_fields(p_):
+                            if val is c:
+                                setattr(p_, fld, ast.copy_location(ast.Name(id=tmp, ctx=ast.Load()), c))
+                            elif isinstance(val, list) and any(v is c for v in val):
+                                setattr(p_, fld, [ast.copy_location(ast.Name(id=tmp, ctx=ast.Load()), c) if v is c else v for v in val])
+                        res.extend(pre_stmts)
+                        break
+                if isinstance(st, ast.Expr):
+                    new = expand(st.value, lambda r_: None)
+                elif isinstance(st, ast.Assign):
+                    new = expand(st.value, lambda r_, st=st: ast.Assign(targets=st.targets, value=r_))
+                elif isinstance(st, ast.Return) and st.value is not None:
+                    new = expand(st.value, lambda r_: ast.Return(value=r_))
+                res.extend(new if new is not None else [st])
+            return res
+
+        node.body = rewrite(node.body)
+        changed = changed or hit[0]
+        if not hit[0]:
+            break
+    if not changed:
+        return f
+    ast.fix_missing_locations(node)
+    nf = type(f)(f.qname, node, f.module, f.cls, f.parent)
+    nf.children = f.children
+    return nf
 
 
 class ClassInfo:
@@ -117,10 +422,65 @@ class ClassInfo:
         self.prog = prog
         self.cls = cls
         self.writes = {}  # loc -> [(func, value node | None)]
-        self.methods = [f for f in prog.funcs.values() if f.cls is cls]
+        raw = self.raw = [f for f in prog.funcs.values() if f.cls is cls]
+        # pass 1 on the code as written: which attributes are (re)bound outside the constructor
+        self.methods = raw
+        for f in raw:
+            self._scan(f)
+        rebound = set()
+        for l in self.writes:
+            if '[' in l:
+                continue
+            if l == 'self.*' or any(not (g.name == '__init__' and g.parent is None) and _rebinds(g, l) for g in raw):
+                rebound.add(l)
+        if 'self.*' in rebound:
+            rebound |= set(self.writes)
+        # pass 2 on the normal form
+        users = {}
+        for g in raw:
+            if g.name == '__init__' and g.parent is None:
+                continue
+            for n in g.own_nodes():
+                if isinstance(n, ast.Attribute) and isinstance(n.value, ast.Name) and n.value.id == 'self':
+                    users.setdefault('self.' + n.attr, set()).add(g.qname)
+        private_to = {}
+        for l, qs in users.items():
+            if len(qs) == 1 and l[5:].startswith('_' + cls.name.lstrip('_') + '__'):
+                private_to.setdefault(next(iter(qs)), set()).add(l)
+        self.norm = {f.qname: normalise_func(prog, f, rebound, private_to) for f in raw}
+        self.methods = list(self.norm.values())
+        self.writes = {}
         self._mw = {}
         for f in self.methods:
             self._scan(f)
+
+    def lift(self, g, depth=0):
+        """qnames of the entry methods on whose behalf a pure helper runs: a method that is only ever called as
+        self.g(..) from other methods of the class stands for its callers (two levels), anything else for itself"""
+        callers = [
+            h
+            for h in self.raw
+            if h.qname != g.qname
+            and any(
+                isinstance(c.func, ast.Attribute) and isinstance(c.func.value, ast.Name) and c.func.value.id == 'self' and c.func.attr == g.name
+                for c in h.calls()
+            )
+        ]
+        referenced = any(
+            isinstance(n, ast.Attribute) and n.attr == g.name and isinstance(n.ctx, ast.Load) and not any(n is c.func for c in h.calls())
+            for h in self.raw
+            for n in h.own_nodes()
+        )
+        if not callers or referenced or depth >= 2 or g.name in ('__init__',) or g.parent is not None:
+            return {g.qname}
+        out = set()
+        for h in callers:
+            out |= self.lift(h, depth + 1)
+        return out
+
+    def nf(self, f):
+        """normal form of a method of this class (the function itself for anything else)"""
+        return self.norm.get(f.qname, f) if f is not None else None
 
     def _w(self, loc, f, v):
         self.writes.setdefault(loc, []).append((f, v))
@@ -241,9 +601,10 @@ class ClassInfo:
         """locations of self that running f may write (transitively through calls on self); '*' = anything"""
         if f.qname in self._mw:
             return self._mw[f.qname]
-        if f in _stack:
+        f = self.nf(f)
+        if f.qname in [g.qname for g in _stack]:
             return set()
-        out = {l for l, ws in self.writes.items() if any(g is f for g, _v in ws)}
+        out = {l for l, ws in self.writes.items() if any(g.qname == f.qname for g, _v in ws)}
         if 'self.*' in out:
             out.add('*')
         for c in f.calls():
@@ -650,9 +1011,18 @@ class _Loop(Flow):
                 st = _unflag(st, 'pending')
             else:
                 val = self.sym(s.value, st)
-            flat = _flat_targets(tg)
-            for t in flat:
-                st = self.assign(t, val if len(flat) == len(tg) else ('top', norm(s)), s, st)
+            for t0 in tg:
+                if isinstance(t0, (ast.Tuple, ast.List)):
+                    elts = t0.elts
+                    lit = s.value if isinstance(s.value, (ast.Tuple, ast.List)) and len(s.value.elts) == len(elts) else None
+                    for i, t in enumerate(elts):
+                        if isinstance(t, (ast.Tuple, ast.List, ast.Starred)) or any(isinstance(e, ast.Starred) for e in elts):
+                            for x in _flat_targets([t]):
+                                st = self.assign(x, ('top', norm(s)), s, st)
+                        else:
+                            st = self.assign(t, self.sym(lit.elts[i], st) if lit is not None else ('idx', val, i), s, st)
+                else:
+                    st = self.assign(t0, val, s, st)
         elif isinstance(s, ast.AugAssign):
             l = loc_of(s.target)
             if l is not None:
@@ -1054,6 +1424,7 @@ def analyse_loop(prog, f):
     if key in _LOOP_CACHE and _LOOP_CACHE[key][0] is prog:
         return _LOOP_CACHE[key][1:]
     ci = ClassInfo(prog, f.cls)
+    f = ci.nf(f)
     sh = loop_shape(prog, f, ci)
     fl = None
     if sh.bufloc and sh.lenloc and sh.kinds:
@@ -1087,8 +1458,8 @@ def analyse_loop(prog, f):
             if loc == sh.lenloc and 'none' not in sh.kinds:
                 continue  # the phases own the expected length of the handshake
             for g, v in ci.writes_of(loc):
-                if g.qname in allowed or (extra and g.qname in extra):
-                    continue
+                if ci.lift(g) <= allowed | set(extra or ()):
+                    continue  # the receive function itself, or a helper that only runs on its behalf
                 if g.name == '__init__' and g.parent is None:
                     init_ok = (
                         isinstance(v, ast.Constant) and (v.value == b'' if loc == sh.bufloc else v.value is None)
@@ -1105,8 +1476,11 @@ def restoring_funcs(prog, ci):
     """methods (other than __init__) that write some object's dataReceived"""
     out = []
     for g, _n in attr_stores(prog).get('dataReceived', []):
-        if g.cls is ci.cls and g.name != '__init__' and g not in out:
-            out.append(g)
+        if g.cls is ci.cls and g.name != '__init__':
+            for q in sorted(ci.lift(g)):
+                h = prog.funcs.get(q)
+                if h is not None and h.name != '__init__' and h not in out:
+                    out.append(h)
     return out
 
 
@@ -1350,11 +1724,12 @@ class _Install(Flow):
 class _Restore(Flow):
     """the phase that restores dataReceived.
 
-    state: sig / echo in '?TF' ('-' echo not compared yet), vsrc = what <response>.valid currently means,
-    dr in '?SN' (saved original known Some / None), restored, delivered, cleared, slot (next phase), taint
+    state: sig / echo in '?TF' ('-' echo not compared yet); bools = what each boolean-valued name (or <response>.valid)
+    currently stands for: 'sig' | 'echo' | 'true' | 'false' | 'unknown'; dr in '?SN' (saved original known Some / None);
+    restored, delivered, cleared; slot (next phase); taint (names derived from the received bytes)
     """
 
-    S = namedtuple('S', 'sig echo vsrc dr restored delivered cleared slot resp taint')
+    S = namedtuple('S', 'sig echo bools dr restored delivered cleared slot resp taint')
 
     def __init__(self, prog, f, ci, bufloc, slotloc, drloc, ploc, challenge_ok):
         super().__init__()
@@ -1366,6 +1741,7 @@ class _Restore(Flow):
         self.deliveries = []
         self.returns = 0
         self.echo_cmp = []
+        self.final_slots = set()
 
     def problem(self, node, msg):
         self.bad.setdefault(_short(node), (node, msg))
@@ -1373,21 +1749,66 @@ class _Restore(Flow):
     def valid(self, st):
         return st.sig == 'T' and st.echo == 'T'
 
-    def is_valid_attr(self, e, st):
-        return isinstance(e, ast.Attribute) and e.attr == 'valid' and isinstance(e.value, ast.Name) and e.value.id == st.resp
+    def key(self, e, st):
+        if isinstance(e, ast.Name):
+            return e.id
+        if isinstance(e, ast.Attribute) and e.attr == 'valid' and isinstance(e.value, ast.Name) and e.value.id == st.resp:
+            return e.value.id + '.valid'
+        return None
+
+    def src(self, e, st):
+        k = self.key(e, st)
+        if k is None:
+            return None
+        for kk, v in st.bools:
+            if kk == k:
+                return v
+        return None
+
+    def bind(self, st, k, v):
+        return st._replace(bools=frozenset({(a, b) for a, b in st.bools if a != k} | ({(k, v)} if v else set())))
 
     def tainted(self, e, st):
         return any(isinstance(n, ast.Name) and n.id in st.taint for n in ast.walk(e))
 
     def is_echo(self, e, st):
-        if not (isinstance(e, ast.Compare) and len(e.ops) == 1 and isinstance(e.ops[0], ast.Eq)):
-            return False
+        """+1: e is  <decrypted reply> == <transmitted challenge>;  -1: the same with != ; 0: something else"""
+        if not (isinstance(e, ast.Compare) and len(e.ops) == 1 and isinstance(e.ops[0], (ast.Eq, ast.NotEq))):
+            return 0
         a, b = e.left, e.comparators[0]
         for x, y in ((a, b), (b, a)):
             locs = {loc_of(n) for n in ast.walk(y) if isinstance(n, ast.Attribute)} - {None}
             if self.tainted(x, st) and not self.tainted(y, st) and any(self.challenge_ok(l) for l in locs):
-                return True
-        return False
+                return 1 if isinstance(e.ops[0], ast.Eq) else -1
+        return 0
+
+    def classify(self, v, st, node):
+        """what a boolean value stands for; registers an echo comparison"""
+        neg = False
+        while isinstance(v, ast.UnaryOp) and isinstance(v.op, ast.Not):
+            v, neg = v.operand, not neg
+        ec = self.is_echo(v, st)
+        if ec:
+            self.echo_cmp.append(node)
+            if st.sig != 'T':
+                self.problem(node, f'{norm(node)[:80]}: the echo comparison decides on a path where the signature is {st.sig}, not verified')
+            return ('echo' if (ec > 0) != neg else 'not-echo'), st._replace(echo='?' if st.echo == '-' else st.echo)
+        if isinstance(v, ast.Constant):
+            return ('true' if bool(v.value) != neg else 'false'), st
+        sv = self.src(v, st)
+        if sv is not None:
+            flip = {'sig': 'not-sig', 'not-sig': 'sig', 'echo': 'not-echo', 'not-echo': 'echo', 'true': 'false', 'false': 'true'}
+            return (flip.get(sv, 'unknown') if neg else sv), st
+        if isinstance(v, ast.BoolOp) and isinstance(v.op, ast.And) and not neg:
+            # a conjunction is at most as true as each conjunct: stands for the strongest known conjunct
+            got = []
+            for x in v.values:
+                c, st = self.classify(x, st, node)
+                got.append(c)
+            for want in ('false', 'echo', 'sig'):
+                if want in got:
+                    return want, st
+        return 'unknown', st
 
     def _restore(self, node, st):
         w = _dr_write(node)
@@ -1429,31 +1850,27 @@ class _Restore(Flow):
             tg = s.targets if isinstance(s, ast.Assign) else [s.target]
             for t in _flat_targets(tg):
                 l = loc_of(t)
+                v = s.value
+                k = self.key(t, st)
+                if isinstance(t, ast.Name) and isinstance(v, ast.Call) and call_name(v) == 'verify' and v.args and self.tainted(v.args[0], st):
+                    st = st._replace(resp=t.id, sig='?', echo='-', bools=frozenset())
+                    st = self.bind(st, t.id + '.valid', 'sig')
+                    st = st._replace(taint=st.taint - {t.id})
+                    continue
+                if isinstance(t, ast.Name) and t.id == st.resp:
+                    st = self.bind(st._replace(resp=None), t.id + '.valid', None)
+                if k is not None:
+                    c, st = self.classify(v, st, s)
+                    st = self.bind(st, k, c)
                 if isinstance(t, ast.Name):
-                    v = s.value
-                    if isinstance(v, ast.Call) and call_name(v) == 'verify' and v.args and self.tainted(v.args[0], st):
-                        st = st._replace(resp=t.id, vsrc='sig', sig='?', echo='-')
-                    elif t.id == st.resp:
-                        st = st._replace(resp=None, vsrc='unknown')
                     if self.tainted(v, st):
                         st = st._replace(taint=st.taint | {t.id})
                     else:
                         st = st._replace(taint=st.taint - {t.id})
-                elif self.is_valid_attr(t, st):
-                    if self.is_echo(s.value, st):
-                        self.echo_cmp.append(s)
-                        if st.sig != 'T':
-                            self.problem(s, f'{norm(s)}: the echo comparison overrides the signature verdict on a path where the signature is {st.sig}')
-                        st = st._replace(vsrc='echo', echo='?')
-                    elif isinstance(s.value, ast.Constant) and not s.value.value:
-                        st = st._replace(vsrc='false')
-                    else:
-                        st = st._replace(vsrc='unknown')
                 elif l == self.slotloc:
-                    v = s.value
                     st = st._replace(slot=v.attr if isinstance(v, ast.Attribute) and loc_of(v) else '?')
                 elif l == self.bufloc:
-                    if isinstance(s.value, ast.Constant) and s.value.value == b'':
+                    if isinstance(v, ast.Constant) and v.value == b'':
                         if not st.delivered:
                             self.problem(s, f'{norm(s)}: the residual buffer is cleared on a path where it was not delivered')
                         st = st._replace(cleared=True)
@@ -1465,41 +1882,71 @@ class _Restore(Flow):
             l = loc_of(s.target)
             if l in (self.bufloc, self.drloc, self.ploc, self.slotloc):
                 self.problem(s, f'{norm(s)}: not understood')
+            k = self.key(s.target, st)
+            if k is not None:
+                st = self.bind(st, k, 'unknown')
         return (st,)
 
+    def refine(self, c, st):
+        """(true states, false states) of a boolean standing for c"""
+        if c in ('sig', 'not-sig'):
+            if st.sig == '?':
+                t, f = (st._replace(sig='T'),), (st._replace(sig='F'),)
+            else:
+                t, f = ((st,), ()) if st.sig == 'T' else ((), (st,))
+            return (t, f) if c == 'sig' else (f, t)
+        if c in ('echo', 'not-echo'):
+            if st.echo in '?-':
+                t, f = (st._replace(echo='T'),), (st._replace(echo='F'),)
+            else:
+                t, f = ((st,), ()) if st.echo == 'T' else ((), (st,))
+            return (t, f) if c == 'echo' else (f, t)
+        if c == 'true':
+            return (st,), ()
+        if c == 'false':
+            return (), (st,)
+        return (st,), (st,)
+
     def on_test(self, e, st):
-        if self.is_valid_attr(e, st):
-            if st.vsrc == 'sig':
-                if st.sig == '?':
-                    return (st._replace(sig='T'),), (st._replace(sig='F'),)
-                return ((st,), ()) if st.sig == 'T' else ((), (st,))
-            if st.vsrc == 'echo':
-                if st.echo == '?':
-                    return (st._replace(echo='T'),), (st._replace(echo='F'),)
-                return ((st,), ()) if st.echo == 'T' else ((), (st,))
-            if st.vsrc == 'false':
-                return (), (st,)
-            return (st,), (st,)
+        c = self.src(e, st)
+        if c is not None:
+            return self.refine(c, st)
+        if self.is_echo(e, st):
+            c, st = self.classify(e, st, e)
+            return self.refine(c, st)
         if isinstance(e, ast.Compare) and len(e.ops) == 1 and loc_of(e.left) == self.drloc:
             c = e.comparators[0]
             if isinstance(c, ast.Constant) and c.value is None and isinstance(e.ops[0], (ast.Is, ast.IsNot)):
                 some, none = (st._replace(dr='S'),) if st.dr in '?S' else (), (st._replace(dr='N'),) if st.dr in '?N' else ()
                 return (none, some) if isinstance(e.ops[0], ast.Is) else (some, none)
+        if loc_of(e) == self.drloc:
+            return ((st._replace(dr='S'),) if st.dr in '?S' else ()), ((st._replace(dr='N'),) if st.dr in '?N' else ())
         return (st,), (st,)
 
     def on_return(self, node, st):
         self.returns += 1
         v = node.value
-        if v is None or (isinstance(v, ast.Constant)):
-            may = bool(v is not None and v.value)
-        elif self.is_valid_attr(v, st):
-            may = {'sig': st.sig != 'F', 'echo': st.echo != 'F', 'false': False}.get(st.vsrc, True)
+        if v is None:
+            may_t, may_f = False, True
         else:
-            may = True
-        if may and not self.valid(st):
+            c, st2 = self.classify(v, st, node)
+            t, f = self.refine(c, st2)
+            may_t, may_f = bool(tuple(t)), bool(tuple(f))
+            if c in ('echo', 'not-echo', 'sig', 'not-sig') and may_t and may_f:
+                # returned undecided: evaluate both outcomes
+                for sx in tuple(t):
+                    self._ret(node, sx, True, False)
+                for sx in tuple(f):
+                    self._ret(node, sx, False, True)
+                return (st,)
+        self._ret(node, st, may_t, may_f)
+        return (st,)
+
+    def _ret(self, node, st, may_t, may_f):
+        if may_t and not self.valid(st):
             self.problem(node, f'{norm(node)} can report success with signature={st.sig} echo={st.echo}: a failed handshake would not close the connection')
         if self.valid(st):
-            if not may:
+            if may_f and not may_t:
                 self.problem(node, f'{norm(node)} reports failure after a verified signature and an equal echo')
             if st.dr != 'N' and not (st.restored and st.delivered and st.cleared):
                 self.problem(
@@ -1507,8 +1954,7 @@ class _Restore(Flow):
                     f'a successful handshake can end with restored={st.restored} delivered={st.delivered} cleared={st.cleared}: '
                     'bytes that arrived with the last packet are lost, or stay in the handshake buffer and kill the connection',
                 )
-        self.final_slots = getattr(self, 'final_slots', set()) | {st.slot}
-        return (st,)
+        self.final_slots.add(st.slot)
 
 
 class _Ctor(Flow):
@@ -1558,6 +2004,7 @@ def _rule2(ctx, rep):
         raise AnalysisError('TwistedWrapper.__init__ not found')
     ci, sh, lf = analyse_loop(prog, proc)
     rep.analysed(proc, init)
+    init = ci.nf(init)
     with rep.rule(
         'R-C14-2',
         'handshake gate: the application receiver is replaced at construction and comes back only after a verified signature and an equal echo',
@@ -1593,13 +2040,13 @@ def _rule2(ctx, rep):
         drloc = ins.drloc
         ploc = None
         for l, ws in ci.writes.items():
-            if len(ws) == 1 and ws[0][0] is init and isinstance(ws[0][1], ast.Name) and ws[0][1].id == proto:
+            if len(ws) == 1 and ws[0][0].qname == init.qname and isinstance(ws[0][1], ast.Name) and ws[0][1].id == proto:
                 ploc = l
         # (b) who writes dataReceived / calls the saved original, anywhere
         restorers = restoring_funcs(prog, ci)
         for g, node in attr_stores(prog).get('dataReceived', []):
             r.instance()
-            okw = g is init or g in restorers
+            okw = g.cls is cls and ci.lift(g) <= {init.qname} | {x.qname for x in restorers}
             r.check(
                 okw,
                 f'{g.qname}:writes-dataReceived',
@@ -1609,12 +2056,13 @@ def _rule2(ctx, rep):
                 nontrivial=False,
             )
         if drloc:
-            callers = {g.qname for g in ci.methods for c in g.calls() if loc_of(c.func) == drloc}
+            callers = {q for g in ci.methods for c in g.calls() if loc_of(c.func) == drloc for q in ci.lift(g)}
             readers = {
-                g.qname
+                q
                 for g in ci.methods
                 for n in g.own_nodes()
                 if isinstance(n, ast.Attribute) and isinstance(n.ctx, ast.Load) and loc_of(n) == drloc
+                for q in ci.lift(g)
             }
             r.instance()
             r.check(
@@ -1634,7 +2082,7 @@ def _rule2(ctx, rep):
         def challenge_ok(loc):
             """loc is written by another method which also transmits it (the challenge the peer must echo)"""
             for g, _v in ci.writes_of(loc):
-                if g in restorers or g is init:
+                if g.qname == init.qname or g.qname in {x.qname for x in restorers}:
                     continue
                 names = {loc}
                 for n in g.own_nodes():
@@ -1650,9 +2098,10 @@ def _rule2(ctx, rep):
         for g in restorers:
             r.instance()
             rep.analysed(g)
+            g = ci.nf(g)
             dp = data_param(g)
             fl = _Restore(prog, g, ci, sh.bufloc, sh.slotloc, drloc, ploc, challenge_ok)
-            st0 = _Restore.S('?', '-', 'none', '?', False, False, False, None, None, frozenset({dp}))
+            st0 = _Restore.S('?', '-', frozenset(), '?', False, False, False, None, None, frozenset({dp}))
             out = fl.run(g.node, st0)
             for st in out.normal:
                 fl.on_return(ast.Return(value=None), st)
@@ -1669,7 +2118,7 @@ def _rule2(ctx, rep):
                 r.ok(key, f'{len(fl.restores)} restoration(s), {len(fl.deliveries)} delivery: only with signature=T and echo=T; success implies restored, delivered, then cleared', where(g, fl.restores[0]))
             # (e) afterwards the always-false phase
             r.instance()
-            slots = getattr(fl, 'final_slots', set())
+            slots = fl.final_slots
             finals = [prog.method(WRAPPER, sname) if sname and sname != '?' else None for sname in slots]
             r.check(
                 bool(finals) and all(m is not None and _always_false(prog, ci, m) for m in finals),
@@ -1701,14 +2150,15 @@ def _rule2(ctx, rep):
                 r.fail(key, mwhere(c.module, c.node), 'protocol class without a constructor of its own: the handshake wrapper is never installed')
                 continue
             rep.analysed(ctor)
+            ctor = ClassInfo(prog, prog.classes[ctor.qname.rsplit('.', 1)[0]]).nf(ctor) if ctor.qname.rsplit('.', 1)[0] in prog.classes else ctor
             cf = _Ctor(prog, ctor)
             out = cf.run(ctor.node, ('?', False))
             msgs = []
             for call, st in cf.sites:
                 if st[0] != 'F':
                     msgs.append(f'{norm(call)} is reachable with use_tls() {"true" if st[0] == "T" else "untested"}: a TLS peer would have its first messages eaten by the handshake')
-                if not (len(call.args) == 2 and isinstance(call.args[0], ast.Name) and call.args[0].id == 'self' and isinstance(call.args[1], ast.Name) and call.args[1].id in ctor.params()):
-                    msgs.append(f'{norm(call)} is not TwistedWrapper(self, <peer address parameter>)')
+                if not (len(call.args) == 2 and isinstance(call.args[0], ast.Name) and call.args[0].id == 'self' and not isinstance(call.args[1], ast.Constant)):
+                    msgs.append(f'{norm(call)} is not TwistedWrapper(self, <peer address>)')
                 if st[1]:
                     msgs.append(f'{norm(call)} wraps the protocol twice')
             for st in out.normal | out.ret:
@@ -1731,17 +2181,22 @@ def _rule3(ctx, rep):
     with rep.rule(
         'R-C14-3',
         'framing agreement: every struct.pack/unpack of the farm, database, log and handshake channels uses big-endian unsigned 4-byte fields',
-        floor=17,  # 17 prefix encode/decode sites read today (+3 incidental len(struct.pack(fmt, 0)) width computations)
+        floor=8,  # roles (channel module, encode|decode) that have at least one site; every site found is an obligation
         breaks='sender and receiver disagree on the width or byte order of the length prefix: the receiver cuts the stream at the wrong places '
         '(the log channel sender is logging.handlers.SocketHandler, which is fixed to ">L")',
     ) as r:
+        roles, sites = set(), 0
         for mn in ANCHOR_MODULES:
             for f in sorted(_module_funcs(prog, mn), key=lambda f: f.qname):
                 for c in sorted(f.calls(), key=lambda c: (c.lineno, c.col_offset)):
                     q = prog.resolve_in(c.func, f) or ''
                     if not (q.startswith('external:struct.') and q.rsplit('.', 1)[1] in ('pack', 'unpack', 'unpack_from', 'pack_into', 'calcsize', 'iter_unpack', 'Struct')):
                         continue
-                    r.instance()
+                    role = (mn, 'encode' if 'pack' in q.rsplit('.', 1)[1] and 'unpack' not in q else 'decode')
+                    if role not in roles:
+                        roles.add(role)
+                        r.instance()
+                    sites += 1
                     rep.analysed(f)
                     fmt = c.args[0] if c.args else None
                     key = f'{f.qname}:{norm(c)[:70]}'
@@ -1756,49 +2211,125 @@ def _rule3(ctx, rep):
                         f'{norm(c)[:70]} uses format {fmt.value!r}, not big-endian unsigned 4-byte fields like every other end of the channels',
                         nontrivial=False,
                     )
+        r.extra['sites'] = sites
+        r.extra['roles'] = sorted(f'{m}:{d}' for m, d in roles)
+
+
+def _is_len_of(e, text):
+    return isinstance(e, ast.Call) and isinstance(e.func, ast.Name) and e.func.id == 'len' and len(e.args) == 1 and norm(e.args[0]) == text
+
+
+def _appended(loop, call, acc=None):
+    """the accumulator the recv result is appended to inside the loop (directly or through one local), else None"""
+    names = set()
+    for s in ast.walk(loop):
+        if isinstance(s, ast.Assign) and s.value is call:
+            names |= {t.id for t in s.targets if isinstance(t, ast.Name)}
+
+    def is_res(v):
+        return v is call or (isinstance(v, ast.Name) and v.id in names)
+
+    for s in ast.walk(loop):
+        if isinstance(s, ast.AugAssign) and isinstance(s.op, ast.Add) and is_res(s.value):
+            if acc is None or norm(s.target) == acc:
+                return norm(s.target), names
+        if isinstance(s, ast.Assign) and len(s.targets) == 1 and isinstance(s.value, ast.BinOp) and isinstance(s.value.op, ast.Add):
+            if norm(s.value.left) == norm(s.targets[0]) and is_res(s.value.right) and (acc is None or norm(s.targets[0]) == acc):
+                return norm(s.targets[0]), names
+        if isinstance(s, ast.Call) and isinstance(s.func, ast.Attribute) and s.func.attr in ('append', 'extend', 'write') and len(s.args) == 1 and is_res(s.args[0]):
+            if acc is None or norm(s.func.value) == acc:
+                return norm(s.func.value), names
+    return None, names
 
 
 def _recv_ok(f, call, parent):
-    """accepted idiom: while len(B) < T: ... B += s.recv(T - len(B))  (directly or through one local)"""
+    """accepted idioms (each keeps reading until the announced total is there):
+
+    A  while len(B) < T [T > len(B) | len(B) != T | not len(B) >= T]:  B += s.recv(T - len(B))
+    B  while R [R > 0 | 0 < R | R != 0]:  x = s.recv(R); B += x (or B.append(x)); R -= len(x)
+    C  s.recv(n, socket.MSG_WAITALL)
+    the result may go through one local; a test of the result for end-of-file in between is fine
+    """
     if len(call.args) == 2 and norm(call.args[1]).endswith('MSG_WAITALL'):
         return True, 'MSG_WAITALL'
     if len(call.args) != 1 or call.keywords:
         return False, 'unexpected arguments'
     a = call.args[0]
-    if not (
-        isinstance(a, ast.BinOp)
-        and isinstance(a.op, ast.Sub)
-        and isinstance(a.right, ast.Call)
-        and isinstance(a.right.func, ast.Name)
-        and a.right.func.id == 'len'
-        and len(a.right.args) == 1
-    ):
-        return False, f'asks for {norm(a)} bytes, not for (total - len(accumulated))'
-    total, acc = norm(a.left), norm(a.right.args[0])
-    n, loop = call, None
+    loops = []
+    n = call
     while id(n) in parent:
         n = parent[id(n)]
         if isinstance(n, ast.While):
-            t = n.test
+            loops.append(n)
+    if not loops:
+        return False, f'is not inside a loop that goes on until {norm(a)} bytes have arrived'
+    # idiom A
+    if isinstance(a, ast.BinOp) and isinstance(a.op, ast.Sub) and isinstance(a.right, ast.Call) and isinstance(a.right.func, ast.Name) and a.right.func.id == 'len' and len(a.right.args) == 1:
+        total, acc = norm(a.left), norm(a.right.args[0])
+        for loop in loops:
+            t, neg = loop.test, False
+            if isinstance(t, ast.UnaryOp) and isinstance(t.op, ast.Not):
+                t, neg = t.operand, True
             if isinstance(t, ast.Compare) and len(t.ops) == 1:
                 l, rr, op = t.left, t.comparators[0], t.ops[0]
-                if (isinstance(op, ast.Lt) and norm(l) == f'len({acc})' and norm(rr) == total) or (
-                    isinstance(op, ast.Gt) and norm(rr) == f'len({acc})' and norm(l) == total
-                ):
-                    loop = n
-                    break
-    if loop is None:
+                short = (
+                    (not neg and isinstance(op, (ast.Lt, ast.NotEq)) and _is_len_of(l, acc) and norm(rr) == total)
+                    or (not neg and isinstance(op, (ast.Gt, ast.NotEq)) and _is_len_of(rr, acc) and norm(l) == total)
+                    or (neg and isinstance(op, (ast.GtE, ast.Eq)) and _is_len_of(l, acc) and norm(rr) == total)
+                    or (neg and isinstance(op, (ast.LtE, ast.Eq)) and _is_len_of(rr, acc) and norm(l) == total)
+                )
+                if short:
+                    got, _n = _appended(loop, call, acc)
+                    if got is None:
+                        return False, f'its result is not appended to {acc} inside the loop'
+                    return True, f'while len({acc}) < {total}'
         return False, f'is not inside a loop  while len({acc}) < {total}'
-    # the result must be appended to the accumulator inside that loop
-    names = set()
-    for s in ast.walk(loop):
-        if isinstance(s, ast.Assign) and s.value is call:
-            names |= {t.id for t in s.targets if isinstance(t, ast.Name)}
-    for s in ast.walk(loop):
-        if isinstance(s, ast.AugAssign) and isinstance(s.op, ast.Add) and norm(s.target) == acc:
-            if s.value is call or (isinstance(s.value, ast.Name) and s.value.id in names):
-                return True, f'while len({acc}) < {total}'
-    return False, f'its result is not appended to {acc} inside the loop'
+    # idiom B
+    if isinstance(a, ast.Name):
+        R = a.id
+        for loop in loops:
+            t = loop.test
+            ok = (isinstance(t, ast.Name) and t.id == R) or (
+                isinstance(t, ast.Compare)
+                and len(t.ops) == 1
+                and (
+                    (isinstance(t.ops[0], (ast.Gt, ast.NotEq)) and norm(t.left) == R and norm(t.comparators[0]) == '0')
+                    or (isinstance(t.ops[0], (ast.Lt, ast.NotEq)) and norm(t.left) == '0' and norm(t.comparators[0]) == R)
+                )
+            )
+            if not ok:
+                continue
+            got, names = _appended(loop, call)
+            if got is None:
+                return False, 'its result is not accumulated inside the loop'
+            for s in ast.walk(loop):
+                if (
+                    isinstance(s, ast.AugAssign)
+                    and isinstance(s.op, ast.Sub)
+                    and isinstance(s.target, ast.Name)
+                    and s.target.id == R
+                    and isinstance(s.value, ast.Call)
+                    and isinstance(s.value.func, ast.Name)
+                    and s.value.func.id == 'len'
+                    and len(s.value.args) == 1
+                    and isinstance(s.value.args[0], ast.Name)
+                    and s.value.args[0].id in names
+                ):
+                    return True, f'while {R}: countdown by the bytes received'
+            return False, f'{R} is not decreased by the number of bytes received'
+    return False, f'asks for {norm(a)} bytes, not for what is still missing of the total'
+
+
+def _reaches_recv(prog, f, depth=0):
+    if any(isinstance(c.func, ast.Attribute) and c.func.attr == 'recv' for c in f.calls()):
+        return True
+    if depth >= 2:
+        return False
+    for c in f.calls():
+        g = prog.func_of(prog.callee(c, f))
+        if g is not None and g is not f and g.module is f.module and _reaches_recv(prog, g, depth + 1):
+            return True
+    return False
 
 
 def _rule4(ctx, rep):
@@ -1806,19 +2337,22 @@ def _rule4(ctx, rep):
     with rep.rule(
         'R-C14-4',
         'blocking receivers: every socket recv() accumulates until the announced number of bytes is there',
-        floor=5,
+        floor=3,  # framed blocking receivers (functions that decode a length prefix from what they, or a helper, recv)
         breaks='recv(n) may return fewer than n bytes: a header or a message cut by the network is taken for the whole '
         '(struct.error, or a truncated challenge is echoed and the handshake fails)',
     ) as r:
+        sites = 0
         for mn in ANCHOR_MODULES:
             for f in sorted(_module_funcs(prog, mn), key=lambda f: f.qname):
+                if any(_is_unpack(prog, f, c) for c in f.calls()) and _reaches_recv(prog, f):
+                    r.instance()
                 parent = None
                 for c in sorted(f.calls(), key=lambda c: (c.lineno, c.col_offset)):
                     if not (isinstance(c.func, ast.Attribute) and c.func.attr == 'recv'):
                         continue
                     if parent is None:
                         parent = {id(ch): p for p in ast.walk(f.node) for ch in ast.iter_child_nodes(p)}
-                    r.instance()
+                    sites += 1
                     rep.analysed(f)
                     ok, why = _recv_ok(f, c, parent)
                     r.check(
@@ -1828,6 +2362,9 @@ def _rule4(ctx, rep):
                         why,
                         f'{norm(c)} {why}: a short read is taken for the complete field',
                     )
+        r.extra['recv_sites'] = sites
+        if not sites:
+            raise AnalysisError('no socket recv() found in the anchored modules: blocking receivers moved elsewhere')
 
 
 def check(ctx):
